@@ -529,15 +529,15 @@ static void run_case(int k, const S & body)
          for (ConstHashtableIterator<uint32, Hashtable<String, PathMatcherEntry> > it(pm.GetEntries()); it.HasData(); it++) k = it.GetKey();
          if (sup) o << "pm=" << (r.IsOK()?"ok":"err") << ",k" << k << ",d" << GetPathDepth(subj.c_str()) << ",m" << (got?1:0) << ";";
              else o << "pm=U;";
-         // piecewise with fresh matchers: the subject (without one leading '/') is cut at every '/', a trailing empty piece
-         // does not count, and must have as many pieces as the pattern has clauses
+         // piecewise with fresh matchers: the subject (without one leading '/') is cut at EVERY '/' (empty pieces included,
+         // the empty path has none -- the same way PutPathString() cuts the pattern) and must have as many pieces as the
+         // pattern has clauses.  For well-formed node paths (no empty clause) this is the only reading there is.
          if (r.IsOK())
          {
             std::vector<S> pc = split(p, '/');
             S sj = subj; if ((!sj.empty())&&(sj[0] == '/')) sj = sj.substr(1);
             std::vector<S> sc; if (!sj.empty()) sc = split(sj, '/');
-            size_t depth = sc.size(); if ((depth > 0)&&(sc.back().empty())) depth--;
-            bool want = (depth == pc.size());
+            bool want = (sc.size() == pc.size());
             for (size_t i=0; (want)&&(i<pc.size()); i++) if (pc[i] != "*") {StringMatcher f(String(pc[i].c_str())); if (!f.Match(sc[i].c_str())) want = false;}
             if (want != got) cs.fails.insert("glue-mismatch (PathMatcher::MatchesPath differs from clause-by-clause matching)");
          }
